@@ -218,9 +218,11 @@ fn cmd_one(args: &[String]) -> i32 {
     let tier = if args.iter().any(|a| a == "thorough") { Tier::Thorough } else { Tier::Quick };
     let fams = check.families(tier);
     let base: u64 = arg_val(args, "--base").and_then(|s| s.parse().ok()).unwrap_or(20260926);
-    let fam = arg_val(args, "--family").unwrap_or_else(|| fams[(seed.wrapping_sub(base) as usize) % fams.len()].to_string());
+    let i = seed.wrapping_sub(base);
+    let (auto_fam, fam_idx) = driver::family_of(&fams, i);
+    let fam = arg_val(args, "--family").unwrap_or_else(|| auto_fam.to_string());
     let fam_static = fams.iter().find(|f| **f == fam).copied().unwrap_or(fams[0]);
-    let case = check.gen(seed, fam_static, tier);
+    let case = check.gen_indexed(base, i, fam_static, fam_idx, tier);
     if args.iter().any(|a| a == "--case") {
         println!("{}", serde_json::to_string_pretty(&case).unwrap());
     }
@@ -249,8 +251,9 @@ fn cmd_determinism(args: &[String]) -> i32 {
             let mut i = k as u64;
             while i < n {
                 let seed = base + i;
-                let fam = fams[(i as usize) % fams.len()];
-                let case = check.gen(seed, fam, tier);
+                let (fam, fam_idx) = driver::family_of(&fams, i);
+                let case = check.gen_indexed(base, i, fam, fam_idx, tier);
+                let _ = seed;
                 let a = driver::eval_case(check.as_ref(), &case, Duration::from_secs(120));
                 let b = driver::eval_case(check.as_ref(), &case, Duration::from_secs(120));
                 // third execution: explicit replay of the recorded decisions
